@@ -687,6 +687,49 @@ def _inline_new_helper_calls(tree: ast.Module, stem: str, ref: dict) -> int:
     return k
 
 
+def _returns_to_assignments(body: List[ast.stmt], target: ast.Name) -> Optional[List[ast.stmt]]:
+    """A body all of whose returns are in tail position (last statement, or the last statement of an if/else arm that is itself in tail position, or an
+    `if c: ...; return e` followed by the rest) with every `return e` replaced by `target = e`; None when a return sits anywhere else (loops, try, mid-body)."""
+    import copy
+
+    def count_returns(stmts):
+        return sum(1 for s_ in stmts for n_ in ast.walk(s_) if isinstance(n_, ast.Return))
+
+    def tail(stmts):
+        if not stmts:
+            return None
+        head, last = stmts[:-1], stmts[-1]
+        out = []
+        i = 0
+        while i < len(head):
+            h_ = head[i]
+            if count_returns([h_]) == 0:
+                out.append(h_)
+                i += 1
+                continue
+            # `if c: ... return e` (no else) followed by the rest: the rest is its else branch
+            if isinstance(h_, ast.If) and not h_.orelse and h_.body and isinstance(h_.body[-1], ast.Return):
+                a_ = tail(h_.body)
+                b_ = tail(head[i + 1:] + [last])
+                if a_ is None or b_ is None:
+                    return None
+                return out + [ast.copy_location(ast.If(test=h_.test, body=a_, orelse=b_), h_)]
+            return None
+        if isinstance(last, ast.Return):
+            if last.value is None:
+                return None
+            return out + [ast.copy_location(ast.Assign(targets=[copy.deepcopy(target)], value=last.value), last)]
+        if isinstance(last, ast.If) and last.orelse:
+            a_, b_ = tail(last.body), tail(last.orelse)
+            if a_ is None or b_ is None:
+                return None
+            return out + [ast.copy_location(ast.If(test=last.test, body=a_, orelse=b_), last)]
+        if isinstance(last, ast.Raise):
+            return out + [last]
+        return None
+    return tail(list(body))
+
+
 def _inline_new_helper_statements(tree: ast.Module, stem: str, ref: dict) -> int:
     """Extract-function undone at statement level.  A call to a function of this module that the reference tree does not have is replaced by the function's
     body when the call is (a) the whole value of a `return` (every return of the body is then a return of the caller), (b) an expression statement and the
@@ -818,10 +861,71 @@ def _inline_new_helper_statements(tree: ast.Module, stem: str, ref: dict) -> int
             binds.append(ast.copy_location(ast.Assign(targets=[ast.Name(id=tgt, ctx=ast.Store())], value=copy.deepcopy(a)), call))
         return name, binds, holder.body
 
+    def hoist_nested_calls(caller, cls):
+        """`f(a, helper(x), b)` -> `t = helper(x)` / `f(a, t, b)` when what is evaluated before the call is plain: the statement forms above then apply"""
+        n_ = 0
+        for owner in list(_own_nodes(caller)) + [caller]:
+            for field in ("body", "orelse", "finalbody"):
+                blk = getattr(owner, field, None)
+                if not (isinstance(blk, list) and blk and isinstance(blk[0], ast.stmt)):
+                    continue
+                i = 0
+                while i < len(blk):
+                    st = blk[i]
+                    i += 1
+                    if not isinstance(st, (ast.Expr, ast.Assign, ast.Return)) or st.value is None:
+                        continue
+                    top = st.value
+                    # only calls that are direct arguments of the statement's top-level call (or of a call that is itself such an argument / receiver chain)
+                    def find(e, depth):
+                        if not isinstance(e, ast.Call) or depth > 2:
+                            return None
+                        pre_ok = _pure(e.func) or (isinstance(e.func, ast.Attribute) and _pure(e.func.value))
+                        if isinstance(e.func, ast.Attribute) and isinstance(e.func.value, ast.Call):
+                            got_ = find(e.func.value, depth + 1)
+                            if got_ is not None:
+                                return got_
+                            pre_ok = False
+                        if not pre_ok:
+                            return None
+                        slots = [("args", idx, a_) for idx, a_ in enumerate(e.args)] + [("kw", idx, k_.value) for idx, k_ in enumerate(e.keywords)]
+                        for kind_, idx, a_ in slots:
+                            if isinstance(a_, ast.Call):
+                                nm_ = a_.func.id if isinstance(a_.func, ast.Name) else None
+                                if nm_ in helpers and _helper_expression(helpers[nm_][0]) is None:
+                                    return e, (kind_, idx)
+                                got_ = find(a_, depth + 1)
+                                if got_ is not None:
+                                    return got_
+                            if not _pure(a_):
+                                return None
+                        return None
+                    if isinstance(top, ast.Call) and isinstance(top.func, ast.Name) and top.func.id in helpers:
+                        continue  # already a statement form
+                    got_ = find(top, 0)
+                    if got_ is None:
+                        continue
+                    parent_call, (kind_, idx) = got_
+                    counter[0] += 1
+                    tmp = f"hoisted__h{counter[0]}"
+                    old_v = parent_call.args[idx] if kind_ == "args" else parent_call.keywords[idx].value
+                    bind = ast.copy_location(ast.Assign(targets=[ast.Name(id=tmp, ctx=ast.Store())], value=old_v), st)
+                    ref_ = ast.copy_location(ast.Name(id=tmp, ctx=ast.Load()), st)
+                    if kind_ == "args":
+                        parent_call.args[idx] = ref_
+                    else:
+                        parent_call.keywords[idx].value = ref_
+                    blk.insert(i - 1, bind)
+                    i += 1
+                    n_ += 1
+        return n_
+
     for qn, caller in funcs:
         if qn in helpers or qn in generators:
             continue
         cls = qn.split(".")[0] if "." in qn else None
+        if helpers:
+            hoist_nested_calls(caller, cls)
         changed = True
         rounds = 0
         while changed and rounds < 4:
@@ -881,7 +985,12 @@ def _inline_new_helper_statements(tree: ast.Module, stem: str, ref: dict) -> int
                             if got is not None:
                                 name, binds, body = got
                                 fn, _, rets = helpers[name]
-                                if len(rets) == 1 and body and isinstance(body[-1], ast.Return) and body[-1].value is not None:
+                                tail_ = None
+                                if not (len(rets) == 1 and body and isinstance(body[-1], ast.Return)) and rets and isinstance(st.targets[0], ast.Name):
+                                    tail_ = _returns_to_assignments(body, st.targets[0])
+                                if tail_ is not None:
+                                    repl = binds + tail_
+                                elif len(rets) == 1 and body and isinstance(body[-1], ast.Return) and body[-1].value is not None:
                                     last = ast.copy_location(ast.Assign(targets=st.targets, value=body[-1].value), st)
                                     trivial = isinstance(st.targets[0], ast.Name) and isinstance(body[-1].value, ast.Name) and st.targets[0].id == body[-1].value.id
                                     repl = binds + body[:-1] + ([] if trivial and (binds or body[:-1]) else [last])
